@@ -28,7 +28,7 @@ fn witness_cases(seed: u64) -> Vec<MuxCase> {
 }
 
 pub fn run(ctx: Ctx) -> Report {
-    let n_cases: usize = ctx.tier.pick(480, 24_000);
+    let n_cases: usize = ctx.tier.pick(6400, 240_000);
     run::run_sharded("C01", ctx.shards, move |shard, nshards, rep| {
         let mut rng = Rng::new(ctx.seed.wrapping_mul(0x9E37).wrapping_add(shard as u64) ^ 0xC01);
         let only: Option<(usize, usize)> = std::env::var("VERIF_ONLY").ok().and_then(|s| {
